@@ -586,52 +586,95 @@ func ruleParserProgress(c *Ctx, r *Report, rule string, spec *langSpec) {
 	}
 	r.check(okSync, rule, "sync-set-consumed", "every token sync() stops at starts a statement that consumes it", "sync() stops at a token that decl/stmt do not consume: the toplevel loop would spin on it", "")
 	ruleSyncProgress(c, r, rule, consumed)
-	// block loop: decl; if panicMode { advance }
-	_, bs := c.find("blockStmt")
+	// after an erroneous statement inside a block a token is consumed before the next statement is tried:
+	// an advance() under the fact panicMode, either in the block's statement loop after decl(), or in decl() itself at depth > 0
 	okBlk := false
-	if bs != nil {
-		ast.Inspect(bs.Body, func(n ast.Node) bool {
-			fs, ok := n.(*ast.ForStmt)
-			if !ok {
-				return true
-			}
-			for i, s := range fs.Body.List {
-				if es, ok := s.(*ast.ExprStmt); ok {
-					if call, ok := es.X.(*ast.CallExpr); ok && c.calleeName(call) == "decl" && i+1 < len(fs.Body.List) {
-						if ifs, ok := fs.Body.List[i+1].(*ast.IfStmt); ok && c.fieldPath(ifs.Cond) == "<parser>.panicMode" && len(ifs.Body.List) == 1 {
-							if es2, ok := ifs.Body.List[0].(*ast.ExprStmt); ok {
-								if c2, ok := es2.X.(*ast.CallExpr); ok && c.calleeName(c2) == "parser.advance" {
-									okBlk = true
-								}
+	loopsWithDecl, loopsEnd := 0, 0
+	for _, it := range c.sortedDecls() {
+		fd := it.fd
+		if fd.Body == nil || it.obj.Pkg() == nil || it.obj.Pkg().Path() != bclPath {
+			continue
+		}
+		isDecl := qname(it.obj) == "decl"
+		isParse := qname(it.obj) == "parse"
+		ast.Inspect(fd.Body, func(n ast.Node) bool {
+			switch n := n.(type) {
+			case *ast.CallExpr:
+				if c.calleeName(n) != "parser.advance" {
+					return true
+				}
+				panicFact, deep, inStmtLoop := false, false, false
+				for _, f := range splitFacts(c.factsAt(fd.Body, n)) {
+					a := condAtom{E: stripParens(f.Cond), Pos: f.Pos, Init: f.Init}
+					if c.fieldPath(a.E) == "<parser>.panicMode" && a.Pos {
+						panicFact = true
+					}
+					if b, ok := c.boundOf(a); ok && c.fieldPath(b.X) == "<parser>.scope.depth" {
+						if (b.Lo != nil && *b.Lo >= 1) || (b.Ne != nil && *b.Ne == 0) {
+							deep = true
+						}
+					}
+				}
+				pm := parentMap(fd.Body)
+				for p := pm[ast.Node(n)]; p != nil; p = pm[p] {
+					if fs, ok := p.(*ast.ForStmt); ok {
+						for _, cs := range c.callsIn(fs.Body) {
+							if cs == "decl" {
+								inStmtLoop = true
 							}
 						}
 					}
+				}
+				if panicFact && ((inStmtLoop && !isParse) || (isDecl && deep)) {
+					okBlk = true
+				}
+			case *ast.ForStmt:
+				callsDecl := false
+				for _, st := range n.Body.List {
+					if es, ok := st.(*ast.ExprStmt); ok {
+						if call, ok := es.X.(*ast.CallExpr); ok && c.calleeName(call) == "decl" {
+							callsDecl = true
+						}
+					}
+				}
+				if !callsDecl {
+					return true
+				}
+				loopsWithDecl++
+				tests := false
+				var where []ast.Node
+				if n.Cond != nil {
+					where = append(where, n.Cond)
+				}
+				// or a leading `if <end test> { return / break }`
+				if len(n.Body.List) > 0 {
+					if ifs, ok := n.Body.List[0].(*ast.IfStmt); ok && len(ifs.Body.List) > 0 {
+						switch last := ifs.Body.List[len(ifs.Body.List)-1].(type) {
+						case *ast.ReturnStmt:
+							where = append(where, ifs.Cond)
+						case *ast.BranchStmt:
+							if last.Tok == token.BREAK {
+								where = append(where, ifs.Cond)
+							}
+						}
+					}
+				}
+				for _, w := range where {
+					for _, cs := range c.callsIn(w) {
+						if cs == "parser.matchEnd" || cs == "parser.checkEnd" {
+							tests = true
+						}
+					}
+				}
+				if tests {
+					loopsEnd++
 				}
 			}
 			return true
 		})
 	}
-	r.check(okBlk, rule, "block-loop-advances", "decl(p); if p.panicMode { p.advance() }", "inside a block an erroneous statement must be followed by an advance, or the loop may not make progress", "")
-	// loops end at checkEnd / matchEnd
-	okEnd := true
-	for _, name := range []string{"parse", "blockStmt"} {
-		_, fd := c.find(name)
-		found := false
-		if fd != nil {
-			ast.Inspect(fd.Body, func(n ast.Node) bool {
-				if fs, ok := n.(*ast.ForStmt); ok && fs.Cond != nil {
-					for _, cs := range c.callsIn(fs.Cond) {
-						if cs == "parser.matchEnd" || cs == "parser.checkEnd" {
-							found = true
-						}
-					}
-				}
-				return true
-			})
-		}
-		okEnd = okEnd && found
-	}
-	r.check(okEnd, rule, "loops-stop-at-end", "both statement loops test for the end of input", "a statement loop does not test for the end of input", "")
+	r.check(okBlk, rule, "block-loop-advances", "after a failed statement inside a block a token is consumed (advance under panicMode)", "inside a block an erroneous statement must be followed by an advance, or the loop may not make progress", "")
+	r.check(loopsWithDecl == 2 && loopsEnd == 2, rule, "loops-stop-at-end", "both statement loops test for the end of input", fmt.Sprintf("%d statement loops, %d of them test for the end of input", loopsWithDecl, loopsEnd), "")
 }
 
 func ruleLexerProgress(c *Ctx, r *Report, rule string) {
@@ -680,95 +723,39 @@ func ruleSyncProgress(c *Ctx, r *Report, rule string, consumed map[string]bool) 
 		r.bad(rule, "sync", "function not found", "")
 		return
 	}
+	tab, err := c.syncModel()
+	if err != nil {
+		r.bad(rule, "sync", err.Error(), "")
+		return
+	}
+	for _, u := range tab.Undecided {
+		r.undecided(rule, "sync/model", u, c.pos(fd.Pos()))
+	}
+	// per token (decision table of sync): it either consumes the token, or stops at it — and then the token
+	// must be one that ends the input or that decl consumes unconditionally
 	toks := constsOfType(c.Bcl, "tokenType")
-	pm := parentMap(fd.Body)
-	bad := ""
-	nRet := 0
-	ast.Inspect(fd.Body, func(n ast.Node) bool {
-		rs, ok := n.(*ast.ReturnStmt)
-		if !ok {
-			return true
-		}
-		nRet++
-		// justified if inside `switch p.current.typ { case <consumed tokens>: return }`
-		okCase := false
-		for p := pm[rs]; p != nil; p = pm[p] {
-			cc, isCC := p.(*ast.CaseClause)
-			if !isCC {
-				continue
-			}
-			if blk, ok := pm[cc].(*ast.BlockStmt); ok {
-				if sw, ok := pm[blk].(*ast.SwitchStmt); ok && sw.Tag != nil && c.fieldPath(sw.Tag) == "<parser>.current.typ" && cc.List != nil {
-					all := true
-					for _, e := range cc.List {
-						v, isC := c.intConst(e)
-						if !isC || !consumed[constNameOf(toks, v)] {
-							all = false
-						}
-					}
-					okCase = all
-				}
-			}
-		}
-		// or preceded by an unconditional advance in the same statement list
-		okAdv := false
-		if list, i := stmtListOf(pm, rs); list != nil {
-			for _, s := range list[:i] {
-				if es, ok := s.(*ast.ExprStmt); ok {
-					if call, ok := es.X.(*ast.CallExpr); ok && c.calleeName(call) == "parser.advance" {
-						okAdv = true
-					}
-				}
-			}
-		}
-		if !okCase && !okAdv {
-			bad = c.pos(rs.Pos()) + ": sync returns without having advanced and without knowing that the current token starts a statement"
-		}
-		return true
-	})
-	// the loop advances in every iteration that does not return
-	loopOK := false
-	ast.Inspect(fd.Body, func(n ast.Node) bool {
-		fs, ok := n.(*ast.ForStmt)
-		if !ok {
-			return true
-		}
-		for _, s := range fs.Body.List {
-			if es, ok := s.(*ast.ExprStmt); ok {
-				if call, ok := es.X.(*ast.CallExpr); ok && c.calleeName(call) == "parser.advance" {
-					loopOK = true
-				}
-			}
-		}
-		for _, cs := range c.callsIn(fs.Cond) {
-			if cs != "parser.checkEnd" {
-				loopOK = false
-			}
-		}
-		return true
-	})
-	r.check(bad == "" && loopOK && nRet > 0, rule, "sync-progress", "sync either advances or stops at a token that starts a statement", "sync: "+bad+map[bool]string{true: "", false: " (its loop must advance unconditionally in each iteration and stop only at end of input)"}[loopOK], c.pos(fd.Pos()))
-	// decl: after the statement dispatch, a toplevel error leads to sync
-	_, dd := c.find("decl")
-	okDecl := false
-	if dd != nil {
-		for _, s := range dd.Body.List {
-			ifs, ok := s.(*ast.IfStmt)
-			if !ok {
-				continue
-			}
-			be, ok := stripParens(ifs.Cond).(*ast.BinaryExpr)
-			if !ok || be.Op != token.LAND || c.fieldPath(be.X) != "<parser>.panicMode" {
-				continue
-			}
-			for _, cs := range c.callsIn(ifs.Body) {
-				if cs == "parser.sync" {
-					okDecl = true
-				}
-			}
+	eofVal := int64(-1)
+	for _, t := range toks {
+		if t.Name == "tEOF" {
+			eofVal = t.Val
 		}
 	}
-	r.check(okDecl, rule, "decl-resyncs", "decl calls sync() when a toplevel statement failed", "decl must call sync() when it ends in panic mode at depth 0, or an unconsumed bad token makes the toplevel loop spin", "")
+	var badStops []string
+	for _, name := range tab.Stops {
+		isEnd := false
+		for _, t := range toks {
+			if t.Name == name && t.Val <= eofVal {
+				isEnd = true
+			}
+		}
+		if !isEnd && !consumed[name] {
+			badStops = append(badStops, name)
+		}
+	}
+	r.check(len(tab.Spins) == 0 && len(badStops) == 0, rule, "sync-progress", "sync either consumes the current token or stops at one that starts a statement / ends the input", fmt.Sprintf("sync: tokens on which an iteration neither consumes nor stops: %v; tokens it stops at although no statement consumes them: %v (the toplevel loop would spin)", tab.Spins, badStops), c.pos(fd.Pos()))
+	// decl: after the statement dispatch, a toplevel error leads to sync
+	_, dd := c.find("decl")
+	r.check(dd != nil && c.declResyncs(dd), rule, "decl-resyncs", "decl calls sync() when a toplevel statement failed", "decl must call sync() when it ends in panic mode at depth 0, or an unconsumed bad token makes the toplevel loop spin", "")
 }
 
 func sortedReach(reach map[*ssa.Function]bool) []*ssa.Function {
